@@ -256,6 +256,9 @@ def job(cfg):
                     if es == 8 and f == 'TRANS': same = z3.Or(same, z3.And(kwval == ord('C'), a[f] == ord('T')))
                     r, m, dt = query(p['pc'], noovf + [z3.Not(same)]); count('C18', r if r in ('sat', 'unsat') else 'unknown', dt)
                     if r == 'sat': res['findings'].append(c17.finding(fname, 'C18', 'Q_flag', '%s: flag %s passed to the routine differs from the keyword %s' % (ev.name, f, kwn), m, sc, mask, key='%s:flag-%s' % (fname, f)))
+                # Q_ld: an omitted leading dimension reaches the routine as the documented default max(1, <matrix>.size[0])
+                c17.check_documented_defaults(fname, 'C18', p, sc, mask, a, {arr_: key_ for arr_, (kind_, key_, off_) in arrays.items() if kind_ == 'buf'},
+                                              query, noovf, count, res, module='lapack', first_event=False)
                 # Q_copy: a private copy handed to the routine instead of the caller's matrix (optional pivot/factor
                 # argument omitted) is filled column by column from exactly the addressed block of that matrix
                 for arr, (kind, key, off) in arrays.items():
@@ -353,12 +356,12 @@ def main(tier, pid='C18', ev=None):
         for k in sorted(groups):
             f = groups[k][0]
             if k in known: known_hits.append((k, known[k]['what'])); continue
-            rp = common.write_replay(pid, k, {'property': pid, 'key': k, 'text': f['text'], 'call': f['call']})
+            rp = common.write_replay(pid, k, {'property': pid, 'key': k, 'text': f['text'], 'call': f['call'], 'diff': f.get('diff')})
             rep, why = (None, 'no call rendered')
             for f2 in groups[k][:3]:
                 if f2['call']:
                     cs = dict(f2['call']); cs['call'] = cs['call'].replace('blas.', 'lapack.', 1)
-                    rep, why = replay_call(cs)
+                    rep, why = c17.replay_diff(cs, f2.get('diff')) if f2['kind'] == 'Q_ld' else replay_call(cs)
                     if rep: break
             if rep: violations.append((k, rp, '%s -> %s' % (f['text'], rep)))
             elif f['kind'] in ('Q_info', 'Q_rej', 'Q_work', 'Q_flag', 'Q_copy'):
@@ -388,6 +391,15 @@ def replay_call(callspec, timeout=300):
     finally: c17.REPLAY_PROG = old
 
 def replay_main(path):
+    d_ = json.load(open(path))
+    if d_.get('diff'):
+        cs = dict(d_['call']); cs['call'] = cs['call'].replace('blas.', 'lapack.', 1)
+        rep, why = c17.replay_diff(cs, d_['diff'])
+        print(('REPRODUCED on the real build: %s' % rep) if rep else why)
+        return 1 if rep else 0
+    return _replay_main_mem(path)
+
+def _replay_main_mem(path):
     d = json.load(open(path))
     cs = dict(d['call']); cs['call'] = cs['call'].replace('blas.', 'lapack.', 1)
     rep, why = replay_call(cs)
